@@ -13,9 +13,9 @@ from io import BytesIO, IOBase
 import falcon
 import pyarrow as pa
 
-from vgi_rpc.rpc import _EMPTY_SCHEMA, _write_error_batch
+from vgi_rpc.rpc import _EMPTY_SCHEMA, RpcError, VersionError, _write_error_batch
 from vgi_rpc.rpc._common import _current_request_batch
-from vgi_rpc.utils import new_ipc_stream
+from vgi_rpc.utils import IPCError, new_ipc_stream
 
 from .._common import _ARROW_CONTENT_TYPE, RPC_ERROR_HEADER, _RpcHttpError
 
@@ -25,6 +25,35 @@ from .._common import _ARROW_CONTENT_TYPE, RPC_ERROR_HEADER, _RpcHttpError
 # request to translate a 500 into 200 + ``X-VGI-RPC-Error: true`` so the
 # response shape matches the documented contract for hard caps.
 _current_response_status: ContextVar[HTTPStatus] = ContextVar("vgi_rpc_response_status", default=HTTPStatus.OK)
+
+
+# What reading a request body as Arrow IPC can raise when the body is not a
+# readable stream: truncated or bit-flipped framing (``ArrowInvalid``, but also
+# ``OSError`` -- pyarrow's ``ArrowIOError`` *is* ``OSError`` -- for a message
+# body shorter than its header promises), a schema with no batch after it
+# (``StopIteration``), a type this build cannot decode
+# (``ArrowNotImplementedError``) and a batch that fails validation
+# (``IPCError``).  Over HTTP the body is fully buffered before Arrow sees it, so
+# none of these can be a transport fault; every one is the caller's malformed
+# request and maps to 400.  (External-location fetch failures never surface as
+# a bare ``OSError``: ``resolve_external_location`` wraps them in
+# ``RuntimeError``, which keeps taking the server-error path.)
+_UNREADABLE_REQUEST_ERRORS: tuple[type[BaseException], ...] = (
+    pa.ArrowInvalid,
+    pa.ArrowNotImplementedError,
+    pa.ArrowSerializationError,
+    OSError,
+    StopIteration,
+    IPCError,
+)
+# The full set a request-validation block maps to 400: the above plus the
+# framework's own rejections (metadata, versions, parameter shape).
+_BAD_REQUEST_ERRORS: tuple[type[BaseException], ...] = (
+    *_UNREADABLE_REQUEST_ERRORS,
+    TypeError,
+    RpcError,
+    VersionError,
+)
 
 
 def _vgi_version() -> str:
